@@ -73,17 +73,21 @@ Fixpoint cross_sites (dbg : bool) (root : ainv) (dirs : list (N * ainv)) (seen :
       version_sites dbg (List.length (i_versions inv)) num root inv cmp ++ cross_sites dbg root rest seen'
   end.
 
-(** [obs] = 0: no panic; 1/2/3: the site of the observed panic;
-    [obs_e066]: number of E066 errors reported (compared when nothing panics) *)
-Definition check_cross (dbg : bool) (root : ainv) (dirs : list (N * ainv)) (obs obs_e066 : N) : bool :=
+(** [found]: every inventory that parses without error in a version directory below the head,
+    whatever its head is; the model applies the head check of validate_inventory itself.
+    [obs] = 0: no panic; 1/2/3: the site of the observed panic;
+    [obs_e066], [obs_e040]: numbers of E066 / E040 errors reported (compared when nothing panics) *)
+Definition check_cross (dbg : bool) (root : ainv) (found : list (N * ainv)) (obs obs_e066 obs_e040 : N) : bool :=
+  let dirs := filter head_accepted found in
   let s := cross_sites dbg root dirs [] in
   if obs =? 0 then
-    is_nil s && match cross_check dbg root dirs with XOk n => n =? obs_e066 | _ => false end
+    is_nil s && match object_cross_check dbg root found with XOk n => n =? obs_e066 | _ => false end
+    && (head_rejected_count found =? obs_e040)
   else existsb (N.eqb obs) s.
 
-Definition cross_summary (dbg : bool) (root : ainv) (dirs : list (N * ainv)) : list N * N :=
-  (cross_sites dbg root dirs [],
-   match cross_check dbg root dirs with XOk n => n | XPanic s => 1000 + site_n s | XFuel => 2000 end).
+Definition cross_summary (dbg : bool) (root : ainv) (found : list (N * ainv)) : list N * N :=
+  (cross_sites dbg root (filter head_accepted found) [],
+   match object_cross_check dbg root found with XOk n => n | XPanic s => 1000 + site_n s | XFuel => 2000 end).
 
 (** ** classifier front-ends for arbitrary mutants (the classes blank-id, version-gap and
     wide-padding were repaired in /repo: no front-end, a failure there is a violation) *)
@@ -97,7 +101,7 @@ Definition known_empty_pps (dbg : bool) (inv : ainv) : bool := c17_empty_pps dbg
 (** release CLI: only panic / no panic is observed *)
 Definition check_visit_panic (items : list item) (obs_panic : bool) : bool :=
   Bool.eqb (match fst (visit items) with PPanicked => true | _ => false end) obs_panic.
-Definition check_cross_panic (dbg : bool) (root : ainv) (dirs : list (N * ainv)) (obs : N) : bool :=
-  let s := cross_sites dbg root dirs [] in
+Definition check_cross_panic (dbg : bool) (root : ainv) (found : list (N * ainv)) (obs : N) : bool :=
+  let s := cross_sites dbg root (filter head_accepted found) [] in
   if obs =? 0 then is_nil s else existsb (N.eqb obs) s.
 Definition known_colon_uri (s : bytes) : bool := c17_colon_uri s.
